@@ -435,6 +435,17 @@ def run(ctx):
                 ctx.violation('a huge NEGATIVE power is graded equal to +infinity', {'s': stu, 'kind': 'overflow-grader'}, impl=repr(r))
         except Exception:
             pass
+    # (D''') metric suffixes are per grader: after a grader WITH metric_suffixes was built (and used), a number directly followed by k, M, m, u ...
+    # is still outside the grammar of a grader built without them
+    from mitxgraders import FormulaGrader as _FG
+    _FG(answers='2000', metric_suffixes=True)(None, '2k')
+    plain_g = _FG(answers='2000*x', variables=['x'])
+    for stu in ['2k*x', '2000*x + 0M', '2m*x*1000000', 'x*2k', '5u + 2000*x']:
+        try:
+            r = with_alarm(lambda: plain_g(None, stu), 10)
+            ctx.violation('a metric suffix is accepted by a grader built WITHOUT metric_suffixes (another grader had them enabled)', {'s': stu, 'kind': 'suffix-leak'}, impl=repr(r)[:200])
+        except Exception as exc:
+            ctx.case({'s': stu, 'error': type(exc).__name__}, nontrivial_key=('suffix-leak', stu), kind='suffix-leak')
     # (E) number literal formats and suffixes through the evaluator
     lits = []
     for m in ['0', '7', '12', '3.', '.5', '2.50', '0.125', '00012.5']:
